@@ -267,7 +267,7 @@ def run(ctx: Any) -> None:
 
     from harness import c07_driver as D
     from harness import interp as I
-    from props.C01 import c_cap, c_script, c_trace
+    from props.C01 import c_cap, c_script
 
     thorough = ctx.tier == "thorough"
     rng = ctx.rng
